@@ -1024,6 +1024,9 @@ void scen_communicate() {
   ev("cfg", payload.size(), deadline);
   mark_nontrivial();
 
+  // (descriptor 0 is taken away BEFORE the reference set is recorded: the clean-up below runs while it is
+  // still away and must not touch the saved copy)
+  Fd0Closer fd0(g.close_fd0);
   std::set<int> fds_before = open_fds();
   std::vector<string> cmd = {g_child_path, s.text};
   bool threw = false;
@@ -1031,7 +1034,6 @@ void scen_communicate() {
   int wait_status = -1;
   set_context("communicate/" + s.family);
   uint64_t t_start = 0, t_return = 0;
-  Fd0Closer fd0(g.close_fd0);
   g.armed = true;
   try {
     phosg::Subprocess sp(cmd);
